@@ -250,7 +250,7 @@ func genTotal() {
 				fact["without_model_operation"] = unmapped
 			}
 		}
-		if err == nil && totalAllUnmapped(exp) {
+		if err == nil && len(exp) > 0 && totalAllUnmapped(exp) {
 			// no model operation named for ANY site: the checked-index model does not exist yet; the
 			// inventory is recorded, but the function is not part of the tie (V line total.sites)
 			facts["sites-pending."+f.name] = fact
